@@ -648,8 +648,9 @@ def check_angular_momentum(run, tree):
     from .subdomain_folds import NotAMask
     fi = tree.func(GD)
     for label, with_dx, with_origin in (("window given, origin given", True, True), ("window given, no origin", True, False), ("no window", False, True)):
-        for which in ("top", "side"):
-            construct = "%s[direction=%r, %s]" % (GD, which, label)
+        for spelled in ("top", "side") + (("Side", "TOP") if label == "window given, origin given" else ()):
+            which = spelled.lower()        # the keywords are accepted in any case: every spelling means the same orientation
+            construct = "%s[direction=%r, %s]" % (GD, spelled, label)
             try:
                 hk = abstract_normalize(tree, hooks())
                 summed = {}
@@ -672,7 +673,7 @@ def check_angular_momentum(run, tree):
                 origin = None
                 if with_origin:
                     origin, _ = make_vector(tree, {c: "o." + c for c in "xyz"}, unit="m", shape=(), hooks=hk)
-                kw = dict(direction=which, data=data, dx=ArrTok("dx", "m", ()) if with_dx else None, dy=ArrTok("dy", "m", ()) if with_dx else None, origin=origin)
+                kw = dict(direction=spelled, data=data, dx=ArrTok("dx", "m", ()) if with_dx else None, dy=ArrTok("dy", "m", ()) if with_dx else None, origin=origin)
                 try:
                     basis = ModelEval(tree, fi, {}, hk).invoke(fi, [], kw, None)
                 except (Raised, ProgramRaised) as e:
